@@ -9,7 +9,10 @@ S=/tmp/acbsim-cov
 T=$(dirname "$(find /root/.rustup/toolchains -name llvm-cov | head -1)")
 [ -x "$T/llvm-cov" ] || { echo "llvm-cov not found"; exit 2; }
 rm -rf $S/prof $S/out; mkdir -p $S/prof $S/out
-( cd /verif/harness && CARGO_TARGET_DIR=$S/target RUSTFLAGS="-C instrument-coverage" cargo build --release --offline 2>&1 | tail -1 ) || exit 2
+# (instrumented build scripts dump profiles into their working directory, which is /repo for acb's
+# build.rs: send them to the scratch directory instead)
+( cd /verif/harness && LLVM_PROFILE_FILE=$S/prof/build-%p-%m.profraw CARGO_TARGET_DIR=$S/target RUSTFLAGS="-C instrument-coverage" cargo build --release --offline 2>&1 | tail -1 ) || exit 2
+rm -f $S/prof/build-*.profraw
 for p in C09 C12 C13 C14; do
   n=$N; [ $p = C14 ] && n=$(( N / 25 + 10 ))
   LLVM_PROFILE_FILE=$S/prof/$p-%p-%m.profraw VERIF_OUT_DIR=$S/out VERIF_COUNT=$n VERIF_SOFT_SECS=900 $S/target/release/acbsim run $p quick 2>&1 | tail -1
